@@ -93,6 +93,15 @@ let dispatch cmd r =
   | "dilate_spec" -> let d = next_dt r in let f = next_arr r in let bc = next_arr r in
       (* second list: 1 where the neighbourhood of the pixel lies inside the image *)
       out_lists [dilate_spec_all d f bc; List.map (fun p -> zb (nbh_inside d f bc p)) (all_positions f.shape)]
+  | "open" -> let d = next_dt r in let f = next_arr r in let bc = next_arr r in out_list (mh_open d f bc)
+  | "close" -> let d = next_dt r in let f = next_arr r in let bc = next_arr r in out_list (mh_close d f bc)
+  | "tophat_open" -> let d = next_dt r in let f = next_arr r in let bc = next_arr r in out_list (mh_tophat_open d f bc)
+  | "tophat_close" -> let d = next_dt r in let f = next_arr r in let bc = next_arr r in out_list (mh_tophat_close d f bc)
+  | "cdilate" -> let d = next_dt r in let f = next_arr r in let g = next_arr r in let bc = next_arr r in
+      let n = next_int r in out_list (mh_cdilate d f g.data bc (Z.to_nat (z_of_int n)))
+  | "cerode" -> let d = next_dt r in let f = next_arr r in let g = next_arr r in let bc = next_arr r in
+      out_list (mh_cerode d f g.data bc)
+  | "subm_arr" -> let d = next_dt r in let a = next_arr r in let b = next_arr r in out_list (psubm d a.data b.data)
   | _ -> failwith ("unknown command " ^ cmd)
 
 let () =
